@@ -1,0 +1,295 @@
+//! Read-only observation hooks used by the external verification harness.
+//! Compiled only with `--features verif`; nothing here changes interpreter behaviour.
+use crate::builtin::generators::XGenerator;
+use crate::builtin::mapping::XMapping;
+use crate::builtin::optional::XOptional;
+use crate::builtin::sequence::XSequence;
+use crate::builtin::set::XSet;
+use crate::builtin::stack::XStack;
+use crate::compilation_scope::{Cell, Overload};
+use crate::root_compilation_scope::RootCompilationScope;
+use crate::root_runtime_scope::{EvaluatedValue, RootEvaluationScope};
+use crate::runtime::RTCell;
+use crate::runtime_scope::RuntimeScope;
+use crate::runtime_violation::RuntimeViolation;
+use crate::xvalue::{ManagedXValue, XFunction, XValue};
+use serde_json::{json, Value};
+use std::rc::Rc;
+
+pub fn violation_name(v: &RuntimeViolation) -> String {
+    match v {
+        RuntimeViolation::PermissionError(p) => format!("PermissionError({p})"),
+        RuntimeViolation::OutputFailure(_) => "OutputFailure".to_string(),
+        other => format!("{other:?}"),
+    }
+}
+
+pub struct DumpOptions {
+    pub max_items: usize,
+    pub max_depth: usize,
+    pub repr: bool,
+}
+
+fn seq_repr<W: 'static, R: 'static, T: 'static>(s: &XSequence<W, R, T>, depth: usize) -> String {
+    fn sub<W: 'static, R: 'static, T: 'static>(
+        v: &Rc<ManagedXValue<W, R, T>>,
+        depth: usize,
+    ) -> String {
+        if depth == 0 {
+            return "_".to_string();
+        }
+        if let XValue::Native(b) = &v.value {
+            if let Some(s) = b.as_ref()._as_any().downcast_ref::<XSequence<W, R, T>>() {
+                return seq_repr(s, depth - 1);
+            }
+        }
+        "?".to_string()
+    }
+    match s {
+        XSequence::Empty => "Empty".to_string(),
+        XSequence::Array(_) => "Array".to_string(),
+        XSequence::Range(..) => "Range".to_string(),
+        XSequence::Map(inner, _) => format!("Map({})", sub(inner, depth)),
+        XSequence::Zip(parts) => format!(
+            "Zip({})",
+            parts
+                .iter()
+                .map(|p| sub(p, depth))
+                .collect::<Vec<_>>()
+                .join(",")
+        ),
+        XSequence::Chain { parts, .. } => format!(
+            "Chain({})",
+            parts
+                .iter()
+                .map(|p| sub(p, depth))
+                .collect::<Vec<_>>()
+                .join(",")
+        ),
+        XSequence::Slice(inner, ..) => format!("Slice({})", sub(inner, depth)),
+        XSequence::Count => "Count".to_string(),
+    }
+}
+
+fn gen_repr<W: 'static, R: 'static, T: 'static>(g: &XGenerator<W, R, T>) -> String {
+    let dbg = format!("{g:?}");
+    dbg.split(|c: char| !c.is_alphanumeric())
+        .next()
+        .unwrap_or("")
+        .to_string()
+}
+
+fn dump_result<W: 'static, R: 'static, T: 'static>(
+    v: Result<EvaluatedValue<W, R, T>, RuntimeViolation>,
+    ns: &RuntimeScope<'_, W, R, T>,
+    rt: &RTCell<W, R, T>,
+    opts: &DumpOptions,
+    depth: usize,
+) -> Value {
+    match v {
+        Err(viol) => json!({ "viol": violation_name(&viol) }),
+        Ok(Err(e)) => json!({"err": e.error.clone()}),
+        Ok(Ok(v)) => dump_inner(&v, ns, rt, opts, depth),
+    }
+}
+
+fn dump_inner<W: 'static, R: 'static, T: 'static>(
+    v: &Rc<ManagedXValue<W, R, T>>,
+    ns: &RuntimeScope<'_, W, R, T>,
+    rt: &RTCell<W, R, T>,
+    opts: &DumpOptions,
+    depth: usize,
+) -> Value {
+    if depth > opts.max_depth {
+        return json!({"deep": true});
+    }
+    let d = depth + 1;
+    match &v.value {
+        XValue::Int(i) => json!({"i": i.to_string()}),
+        XValue::Float(f) => json!({"f": format!("{:016x}", f.to_bits())}),
+        XValue::String(s) => json!({"s": s.as_str()}),
+        XValue::Bool(b) => json!({ "b": b }),
+        XValue::Function(XFunction::Native(_)) => json!({"fn": "native"}),
+        XValue::Function(XFunction::UserFunction { .. }) => json!({"fn": "user"}),
+        XValue::StructInstance(items) => json!({
+            "t": items.iter().map(|i| dump_inner(i, ns, rt, opts, d)).collect::<Vec<_>>()
+        }),
+        XValue::UnionInstance((idx, item)) => {
+            json!({"u": [json!(idx), dump_inner(item, ns, rt, opts, d)]})
+        }
+        XValue::Native(b) => {
+            let any = b.as_ref()._as_any();
+            if let Some(seq) = any.downcast_ref::<XSequence<W, R, T>>() {
+                let len = seq.len();
+                let n = len.map_or(opts.max_items, |l| l.min(opts.max_items));
+                let mut items = Vec::with_capacity(n);
+                for idx in 0..n {
+                    let item = seq.get(idx, ns, rt.clone());
+                    let stop = item.is_err();
+                    items.push(dump_result(item, ns, rt, opts, d));
+                    if stop {
+                        break;
+                    }
+                }
+                let mut ret = json!({
+                    "q": items,
+                    "len": len,
+                    "more": len.map_or(true, |l| l > n),
+                });
+                if opts.repr {
+                    ret["repr"] = json!(seq_repr(seq, 3));
+                }
+                ret
+            } else if let Some(gen) = any.downcast_ref::<XGenerator<W, R, T>>() {
+                let mut items = Vec::new();
+                let mut more = false;
+                for item in gen.iter(ns, rt.clone()) {
+                    if items.len() >= opts.max_items {
+                        more = true;
+                        break;
+                    }
+                    let stop = item.is_err();
+                    items.push(dump_result(item, ns, rt, opts, d));
+                    if stop {
+                        break;
+                    }
+                }
+                let mut ret = json!({"g": items, "more": more});
+                if opts.repr {
+                    ret["repr"] = json!(gen_repr(gen));
+                }
+                ret
+            } else if let Some(opt) = any.downcast_ref::<XOptional<W, R, T>>() {
+                match &opt.value {
+                    None => json!({ "o": null }),
+                    Some(inner) => json!({"o": dump_inner(inner, ns, rt, opts, d)}),
+                }
+            } else if let Some(stack) = any.downcast_ref::<XStack<W, R, T>>() {
+                json!({
+                    "k": stack.iter().map(|i| dump_inner(&i, ns, rt, opts, d)).collect::<Vec<_>>(),
+                    "len": stack.length,
+                })
+            } else if let Some(mapping) = any.downcast_ref::<XMapping<W, R, T>>() {
+                let mut entries: Vec<(String, Value)> = mapping
+                    .iter()
+                    .map(|(k, v)| {
+                        let kd = dump_inner(&k, ns, rt, opts, d);
+                        let vd = dump_inner(&v, ns, rt, opts, d);
+                        (kd.to_string(), json!([kd, vd]))
+                    })
+                    .collect();
+                entries.sort_by(|a, b| a.0.cmp(&b.0));
+                json!({
+                    "m": entries.into_iter().map(|e| e.1).collect::<Vec<_>>(),
+                    "len": mapping.verif_len(),
+                    "buckets": mapping.verif_bucket_sizes(),
+                })
+            } else if let Some(set) = any.downcast_ref::<XSet<W, R, T>>() {
+                let mut entries: Vec<(String, Value)> = set
+                    .iter()
+                    .map(|k| {
+                        let kd = dump_inner(&k, ns, rt, opts, d);
+                        (kd.to_string(), kd)
+                    })
+                    .collect();
+                entries.sort_by(|a, b| a.0.cmp(&b.0));
+                json!({
+                    "e": entries.into_iter().map(|e| e.1).collect::<Vec<_>>(),
+                    "len": set.verif_len(),
+                    "buckets": set.verif_bucket_sizes(),
+                })
+            } else {
+                let dbg = format!("{b:?}");
+                let head: String = dbg.chars().take(120).collect();
+                json!({ "n": head })
+            }
+        }
+    }
+}
+
+/// canonical JSON dump of an evaluated value; forces lazy sequences and generators (up to
+/// `max_items`) through the crate's own accessors
+pub fn dump_value<W: 'static, R: 'static, T: 'static>(
+    v: &EvaluatedValue<W, R, T>,
+    scope: &RootEvaluationScope<'_, W, R, T>,
+    opts: &DumpOptions,
+) -> Value {
+    let ns = scope.verif_scope();
+    let rt = scope.verif_runtime();
+    dump_result(Ok(v.clone()), ns, rt, opts, 0)
+}
+
+pub fn accounted_bytes<W, R, T>(rt: &RTCell<W, R, T>) -> usize {
+    usize::from(rt.stats.borrow().size)
+}
+
+pub fn peak_bytes<W, R, T>(rt: &RTCell<W, R, T>) -> usize {
+    rt.stats.borrow().verif_peak
+}
+
+pub fn ud_calls<W, R, T>(rt: &RTCell<W, R, T>) -> usize {
+    rt.stats.borrow().ud_calls
+}
+
+pub fn rng_created<W, R, T>(rt: &RTCell<W, R, T>) -> bool {
+    rt.stats.borrow().rng.is_some()
+}
+
+pub fn start_alloc_trace<W, R, T>(rt: &RTCell<W, R, T>) {
+    rt.stats.borrow_mut().verif_alloc_trace = Some(Vec::new());
+}
+
+pub fn take_alloc_trace<W, R, T>(rt: &RTCell<W, R, T>) -> Vec<usize> {
+    rt.stats
+        .borrow_mut()
+        .verif_alloc_trace
+        .take()
+        .unwrap_or_default()
+}
+
+/// rendered static type of a top-level variable (or of a uniquely named function)
+pub fn static_type<W, R, T>(scope: &RootCompilationScope<W, R, T>, name: &str) -> Option<String> {
+    let id = scope.get_identifier(name)?;
+    let interner = scope.interner.borrow();
+    if let Some(cell_idx) = scope.scope.verif_variables().get(&id) {
+        if let Cell::Variable { t, .. } = &scope.scope.cells[*cell_idx] {
+            return Some(t.to_string_with_interner(&interner));
+        }
+    }
+    let overloads = scope.scope.verif_functions().get(&id)?;
+    if overloads.len() != 1 {
+        return None;
+    }
+    match &overloads[0] {
+        Overload::Static { spec, .. } => Some(spec.xtype().to_string_with_interner(&interner)),
+        Overload::Factory(..) => None,
+    }
+}
+
+/// every root overload: name, generic names, parameter types (+ optionality), return type,
+/// or the description of a dynamic function
+pub fn signatures<W, R, T>(scope: &RootCompilationScope<W, R, T>) -> Value {
+    let interner = scope.interner.borrow();
+    let mut ret = Vec::new();
+    for (name, overloads) in scope.scope.verif_functions().iter() {
+        let name = interner.resolve(*name).unwrap().to_string();
+        for ov in overloads {
+            match ov {
+                Overload::Static { spec, .. } => {
+                    ret.push(json!({
+                        "name": name,
+                        "kind": "static",
+                        "generics": spec.generic_params.as_ref().map(|g| g.iter().map(|n| interner.resolve(*n).unwrap().to_string()).collect::<Vec<_>>()),
+                        "params": spec.params.iter().map(|p| json!({"t": p.type_.to_string_with_interner(&interner), "req": p.required})).collect::<Vec<_>>(),
+                        "ret": spec.ret.to_string_with_interner(&interner),
+                    }));
+                }
+                Overload::Factory(desc, _) => {
+                    ret.push(json!({"name": name, "kind": "dynamic", "desc": desc}));
+                }
+            }
+        }
+    }
+    ret.sort_by_key(|v| v.to_string());
+    Value::Array(ret)
+}
